@@ -214,6 +214,7 @@ class SimFS(object):
         self.fault_hook = None      # hook(op, path_or_ino, proc) -> may raise OSError / return ('short', n)
         self.readdir_salt = None    # permute listing order when not None
         self.mtime_skew = 0.0
+        self.mtime_res = None        # granularity of file time stamps in seconds (None: exact)
         self.buffer_size = 8192
         self.frozen = False
         self.op_count = 0
@@ -245,7 +246,11 @@ class SimFS(object):
         return j
 
     def _now(self):
-        return (self.clock.now if self.clock is not None else 0.0) + self.mtime_skew
+        t = (self.clock.now if self.clock is not None else 0.0) + self.mtime_skew
+        if self.mtime_res:
+            # file systems with coarse time stamps (1 s: ext3, HFS+, many network file systems; 2 s: FAT)
+            t = float(int(t / self.mtime_res) * self.mtime_res)
+        return t
 
     def _mut(self, rec):
         if self.journal is not None:
